@@ -400,12 +400,14 @@ def onFragment (a : Acc) (src : Nat) (frag : List Nat) : Step :=
     match parseResponse frag with
     | none => .appDone (taskOnError a dest (.nonRead t) .transport) dest tt fc0 (.error .transport)
     | some r =>
-      let a := notifyLinkActivity a dest
+      let a := notifyLinkActivity a src
       match validateNonRead dest seq src r with
       | .unsolicited => .waiting (doUnsolicited a src r)
       | .ignore => .waiting a
       | .fail e => .appDone (taskOnError a dest (.nonRead t) e) dest tt fc0 (.error e)
       | .accept =>
+        -- the accepted response is confirmed when it asks for it (end of `validate_non_read_response`)
+        let a := if r.ctrl.con then emit a (.tx dest [0xC0 + seq, 0]) else a
         match a.1.getAssoc dest with
         | none => .appDone (taskOnError a dest (.nonRead t) .noAssociation) dest tt fc0 (.error .noAssociation)
         | some _ =>
@@ -506,10 +508,11 @@ def onMessage (a : Acc) (m : Option Msg) : Step :=
         match mode with
         | .idle _ => .loop a
         | .waitLink dest uid _ =>
-          -- the loop re-arms its deadline from `get_timeout` after every message
+          -- the loop looks the association up again (`get_timeout`) after every message; the
+          -- deadline was computed once, when the request went out
           match a.1.getAssoc dest with
           | none => .linkDone a uid (some .noAssociation)
-          | some x => .waiting (setMode a (.waitLink dest uid (a.1.now + x.cfg.rto)))
+          | some _ => .waiting a
         | _ => .waiting a
 
 /-- the connection is lost -/
